@@ -683,3 +683,123 @@ Proof.
   destruct (s_ord s) as [o|] eqn:E; [|exfalso; apply Ho; reflexivity].
   exact (fsub_system_colwise s o E Hs).
 Qed.
+
+
+(* ------------------------------------------------------------------ phase 4: the same theorem from a SUCCESSFUL tensor recursion *)
+(* the solver need not be total: whenever the 1-D solve of the chunk matrix succeeds, every column solves to the column of the
+   result (forward substitution: always; checked Gauss: the column-wise action of the elimination, still a hypothesis) *)
+Definition sys_colwise_succ (s : sys1) : Prop :=
+  forall cs len r, length cs = s_n s -> (forall c, In c cs -> length c = len) -> solve1V s cs = Some r ->
+    length r = s_n s /\ (forall c, In c r -> length c = len)
+    /\ forall k, (k < len)%nat -> solve1Q s (comp k cs) = Some (comp k r).
+
+Lemma sys_colwise_is_succ s : sys_colwise s -> sys_colwise_succ s.
+Proof.
+  intros H cs len r Lc Sc Hr. destruct (H cs len Lc Sc) as [r' [Hr' [A [B C]]]]. rewrite Hr in Hr'. injection Hr' as E. subst r'.
+  split; [exact A|]. split; [exact B | exact C].
+Qed.
+
+Lemma sweep0_given_solution s n len g r :
+  n = s_n s -> length g = (n * len)%nat -> length r = n -> (forall c, In c r -> length c = len) ->
+  (forall k, (k < len)%nat -> solve1Q s (comp k (chunks n len g)) = Some (comp k r)) ->
+  sweep_offs s (map (fun i => (i * len)%nat) (seq 0 n)) (seq 0 len) g = Some (concat r).
+Proof.
+  intros En Hg Lr Sr Cr. subst n. set (n := s_n s) in *.
+  set (base := map (fun i => (i * len)%nat) (seq 0 n)).
+  assert (Inv : forall m, (m <= len)%nat ->
+     exists gm, fold_left (pole_step s base) (seq 0 m) (Some g) = Some gm /\ length gm = (n * len)%nat /\
+       forall i c, (i < n)%nat -> (c < len)%nat ->
+         nthQ gm (i * len + c) = if (c <? m)%nat then nthQ (nth i r []) c else nthQ g (i * len + c)).
+  { induction m as [|m IHm]; intro Hm.
+    - exists g. split; [reflexivity|]. split; [exact Hg|]. intros i c _ _. reflexivity.
+    - destruct (IHm ltac:(lia)) as [gm [Fm [Lm Nm]]].
+      replace (S m) with (m + 1)%nat by lia. rewrite seq_app, fold_left_app, Fm. cbn [seq plus fold_left].
+      unfold pole_step.
+      set (cs := map (fun b => (b + m)%nat) base).
+      assert (Ecs : cs = map (fun i => (i * len + m)%nat) (seq 0 n)) by (unfold cs, base; rewrite map_map; reflexivity).
+      assert (Eg : map (nthQ gm) cs = comp m (chunks n len g)).
+      { rewrite comp_chunks by lia. rewrite Ecs, map_map. apply map_ext_in. intros i Hi. apply in_seq in Hi.
+        rewrite (Nm i m) by lia. rewrite Nat.ltb_irrefl. reflexivity. }
+      rewrite Eg, (Cr m) by lia.
+      exists (scatter gm cs (comp m r)). split; [reflexivity|]. split; [rewrite scatter_length; exact Lm|].
+      intros i c Hi Hcl.
+      assert (Lcs : length cs = n) by (rewrite Ecs, map_length, seq_length; reflexivity).
+      assert (Ncs : forall t, (t < n)%nat -> nth t cs O = (t * len + m)%nat).
+      { intros t Ht. rewrite Ecs. rewrite (nth_map_lt (fun i0 => (i0 * len + m)%nat) (seq 0 n) O O t) by (rewrite seq_length; exact Ht).
+        rewrite seq_nth by exact Ht. reflexivity. }
+      destruct (Nat.eq_dec c m) as [Ecm|Ecm].
+      + subst c. rewrite <- (Ncs i Hi).
+        rewrite scatter_nth_in.
+        * unfold comp. rewrite (nthQ_map_lt (fun c0 => nthQ c0 m) r [] i) by (rewrite Lr; exact Hi).
+          destruct (Nat.ltb_spec m (m + 1)); [reflexivity | lia].
+        * rewrite Ecs. apply FinFun.Injective_map_NoDup; [|apply seq_NoDup].
+          intros a b E. assert (a * len = b * len)%nat by lia. nia.
+        * unfold comp. rewrite map_length, Lr, Lcs. reflexivity.
+        * rewrite Lcs. exact Hi.
+        * rewrite (Ncs i Hi), Lm. nia.
+      + rewrite scatter_nth_notin.
+        * rewrite (Nm i c Hi Hcl).
+          destruct (Nat.ltb_spec c m); destruct (Nat.ltb_spec c (m + 1)); try reflexivity; lia.
+        * rewrite Ecs. intro Hin. apply in_map_iff in Hin. destruct Hin as [i' [E _]].
+          destruct (block_inj i' i len m c ltac:(lia) Hcl E) as [_ E2]. lia. }
+  destruct (Inv len (Nat.le_refl len)) as [gl [Fl [Ll Nl]]].
+  unfold sweep_offs. rewrite Fl. f_equal.
+  apply (nth_ext _ _ 0 0).
+  - rewrite Ll, (length_concat_const len r Sr), Lr. reflexivity.
+  - intros k Hk. rewrite Ll in Hk.
+    assert (Hlen : (len <> 0)%nat) by (intro E; rewrite E in Hk; lia).
+    pose proof (Nat.div_mod k len Hlen) as Ek.
+    assert (Hi : (k / len < n)%nat) by (apply Nat.div_lt_upper_bound; [exact Hlen | lia]).
+    assert (Hc' : (k mod len < len)%nat) by (apply Nat.mod_upper_bound; exact Hlen).
+    replace k with ((k / len) * len + k mod len)%nat by lia.
+    fold (nthQ gl (k / len * len + k mod len)). fold (nthQ (concat r) (k / len * len + k mod len)).
+    rewrite (Nl _ _ Hi Hc'), (concat_nth_block r len _ _ Sr) by (rewrite ?Lr; assumption).
+    destruct (Nat.ltb_spec (k mod len) len); [reflexivity | lia].
+Qed.
+
+Lemma opt_list_all_some {A B} (f : A -> option B) : forall gs xs, opt_list (map f gs) = Some xs -> forall c, In c gs -> exists y, f c = Some y.
+Proof.
+  induction gs as [|g gs IH]; intros xs H c Hc; [contradiction|].
+  cbn [map opt_list] in H. destruct (f g) as [y|] eqn:E; [|discriminate].
+  destruct (opt_list (map f gs)) as [ys|] eqn:E2; [|discriminate].
+  destruct Hc as [Hc|Hc]; [subst; exists y; exact E | exact (IH ys eq_refl c Hc)].
+Qed.
+
+Theorem hier_flat_follows_hier_nd : forall ss v sur,
+  Forall (fun s => s_n s <> O /\ (sys_single s \/ sys_colwise_succ s)) ss ->
+  length v = prodN (map s_n ss) ->
+  hier_nd ss v = Some sur -> hier_flat ss v = Some sur.
+Proof.
+  induction ss as [|s rest IH]; intros v sur Hss Hv Hnd; [exact Hnd|].
+  inversion Hss as [|? ? [Hn Hs] Hrest]; subst.
+  rewrite hier_flat_run_dims. cbn [map length seq combine]. rewrite combine_seq_shift.
+  set (r := map s_n rest). set (n := s_n s). set (l := combine (seq 0 (length rest)) rest).
+  cbn [map prodN] in Hv. fold r n in Hv.
+  assert (Hdl : forall ds, In ds l -> (fst ds < length r)%nat).
+  { intros [d s'] Hds. unfold l in Hds. apply in_combine_l in Hds. apply in_seq in Hds. unfold r. rewrite map_length. cbn [fst]. lia. }
+  rewrite run_dims_cons. cbn [fst snd].
+  cbn [hier_nd] in Hnd. fold r n in Hnd.
+  assert (Tail : forall gs xs, length gs = n -> (forall c, In c gs -> length c = prodN r) ->
+             opt_list (map (hier_nd rest) gs) = Some xs ->
+             run_dims (n :: r) (map (fun ds => (S (fst ds), snd ds)) l) (Some (concat gs)) = Some (concat xs)).
+  { intros gs xs Lg Sg Hx. rewrite (later_dims_chunkwise n r Hn l gs Lg Sg Hdl). unfold optconcat.
+    assert (EM : map (fun c => run_dims r l (Some c)) gs = map (hier_nd rest) gs).
+    { apply map_ext_in. intros c Hc. unfold l, r. rewrite <- hier_flat_run_dims.
+      destruct (opt_list_all_some (hier_nd rest) gs xs Hx c Hc) as [y Hy]. rewrite Hy.
+      apply IH; [exact Hrest | apply Sg; exact Hc | exact Hy]. }
+    rewrite EM, Hx. reflexivity. }
+  destruct (solve1V s (chunks n (prodN r) v)) as [r0|] eqn:S0; [|discriminate Hnd].
+  destruct (opt_list (map (hier_nd rest) r0)) as [xs|] eqn:Ex; [|discriminate Hnd]. injection Hnd as Hnd. subst sur.
+  destruct (s_basis s) as [|[x bf] [|q t]] eqn:E.
+  - exfalso. apply Hn. unfold s_n. rewrite E. reflexivity.
+  - unfold sweep_dim. rewrite E. unfold solve1V in S0. rewrite E in S0.
+    destruct (Qc_eqb (beval bf x) 1); [|discriminate S0]. injection S0 as S0. subst r0.
+    rewrite <- (concat_chunks n (prodN r) v Hv) at 1.
+    apply Tail; [apply chunks_length | apply chunks_each; exact Hv | exact Ex].
+  - assert (G : forall x0 bf0, s_basis s <> [(x0, bf0)]) by (intros x0 bf0; rewrite E; discriminate).
+    destruct Hs as [[x0 [bf0 E0]]|Hc]; [exfalso; exact (G x0 bf0 E0)|].
+    rewrite (sweep_dim_general s (n :: r) O v G), base_of_0, offs_list_0.
+    destruct (Hc (chunks n (prodN r) v) (prodN r) r0 (chunks_length _ _ _) (chunks_each n (prodN r) v Hv) S0) as [L0 [Sh0 C0]].
+    rewrite (sweep0_given_solution s n (prodN r) v r0 eq_refl Hv L0 Sh0 C0).
+    apply Tail; assumption.
+Qed.
